@@ -2,6 +2,9 @@
 # run_seeded.sh [ids...] : apply each seeded change to /repo, run its property's quick check, revert.
 cd /verif
 ids="$@"; [ -z "$ids" ] && ids=$(ls seeded | grep -v RESULTS)
+# the evidence files must come from runs on the unchanged tree: keep them aside while the changed trees are checked
+rm -rf .build/evidence.keep; cp -r evidence .build/evidence.keep
+trap 'rm -rf /verif/evidence; cp -r /verif/.build/evidence.keep /verif/evidence' EXIT
 for id in $ids; do
   prop=$(python3 -c "import json;print(json.load(open('seeded/$id/meta.json'))['property'])")
   git -C /repo apply /verif/seeded/$id/patch.diff || { echo "$id: patch does not apply"; continue; }
